@@ -21,8 +21,8 @@ m = {"version": 1, "setup_cmd": "./setup.sh",
                "baseline_off_cmd": "cd /repo && /venv/bin/python -m pytest -ra -q -p no:cacheprovider --timeout=900 --continue-on-collection-errors",
                "source_commits": TABLE.get("_hook_commits", []), "add_only": True},
      "engines": [{"name": "tlc-conformance", "path": "/verif/check", "serves_properties": [c["property_id"] for c in checks],
-                  "kind_free_text": "explicit TLA+ specification (spec/*.tla) model-checked with TLC; TLC-generated inputs/histories/programs replayed into the real library; every recorded call/step validated by TLC against the specification (trace validation)"}],
+                  "kind_free_text": "explicit TLA+ specification (spec/*.tla) model-checked with TLC; TLC-generated inputs/histories/programs replayed into the real library; every recorded call/step validated by TLC against the specification (trace validation); cases are executed in two orders in fresh interpreters (order passes), rejections are re-executed before they are reported"}],
      "checks": checks, "not_applicable": na,
-     "notes": "All verdicts are computed by TLC on recorded traces; Python only executes mingus and projects observations. See DESIGN.md."}
+     "notes": "All verdicts are computed by TLC on recorded traces; Python only executes mingus and projects observations. Extension checks X01-X06 (./check X0n; specification beyond the listed properties, DESIGN.md section 14) are not registered here. See DESIGN.md."}
 json.dump(m, open(os.path.join(V, "MANIFEST.json"), "w"), indent=1)
 print(len(checks), "checks;", len(na), "not yet claimed")
